@@ -287,9 +287,15 @@ func c01RunRestart(hist []c01Raw, nAcc, nVal int, pause time.Duration, restartAf
 			break
 		}
 		obs = append(obs, o)
+		if c01AfterBlock != nil {
+			c01AfterBlock(bi, w)
+		}
 	}
 	return obs, w
 }
+
+// c01AfterBlock, when set, is called after every committed block of a run (C12 exports intermediate states through it)
+var c01AfterBlock func(bi int, w *World)
 
 func c01StoreDiff(a, b *World) []string {
 	var out []string
